@@ -26,6 +26,12 @@ type event struct {
 var events []event
 var failPlan func(w int, attempt int) bool // C13: nil = never fail
 var attempts int
+var faultFlavour = -1 // C13: -1 = the kind of failure rotates with attempt and writer; 0..3 = always that kind
+
+// sliceErr: an error whose dynamic type cannot be compared with == (as go/scanner.ErrorList)
+type sliceErr []string
+
+func (e sliceErr) Error() string { return strings.Join(e, " ") }
 
 type recW struct{ id int }
 
@@ -43,12 +49,19 @@ func (w *recW) Write(p []byte) (int, error) {
 	attempts++
 	events = append(events, event{W: w.id, Kind: "write", Payload: append([]byte(nil), p...)})
 	if failPlan != nil && failPlan(w.id, attempts-1) {
-		// the three ways a Write fails: nothing written; part written and io.ErrShortWrite; part written and another error
-		switch (attempts - 1 + w.id) % 3 {
+		// the ways a Write fails: nothing written; part written and io.ErrShortWrite; part written and another error;
+		// an error of an uncomparable dynamic type (a slice).  faultFlavour >= 0: every failure of the run is of that kind
+		kind := (attempts - 1 + w.id) % 3
+		if faultFlavour >= 0 {
+			kind = faultFlavour
+		}
+		switch kind {
 		case 1:
 			return len(p) / 2, io.ErrShortWrite
 		case 2:
 			return len(p) / 2, fmt.Errorf("injected failure on writer %d after %d bytes", w.id, len(p)/2)
+		case 3:
+			return 0, sliceErr{fmt.Sprintf("injected failure on writer %d", w.id), "of an uncomparable error type"}
 		}
 		return 0, fmt.Errorf("injected failure on writer %d", w.id)
 	}
@@ -248,6 +261,7 @@ func resetProcess(snap *slog.VerifRegistry) {
 	events = nil
 	attempts = 0
 	failPlan = nil
+	faultFlavour = -1
 	writeHook = nil
 	sharedAttrsCache = map[string]slog.Attrs{}
 }
